@@ -27,6 +27,20 @@ Judge (answer = SPECIFICATION applied to the implementation's outputs; `ok` or `
         both scripts are recomputed with the driver's own `encode`, the second from the
         structurally substituted AST `mapKeys`
   J keys-multiset <ctx> <a> <iter_pk> <for_each_key> <keys scanned from to_string()>
+Policies (`fam` = concrete | semantic; wire form with `or` weights, see Driver/PolWire.lean;
+model = Model/TranslatePolicy.lean):
+  C ptranslate <fam> <map> <p>         `Policy::translate_pk`               wire / ERR:K<id> / ERR:H<kind>:<id> / PANIC
+  C punsat <key> <p>                   `Concrete::translate_unsatisfiable_pk`   wire / PANIC
+  C pforeach <fam> <stop|-> <p>        `for_each_key(|k| k != stop)` with trace   k,k,…|1
+  C pforany <fam> <hit|-> <p>          `for_any_key(|k| k == hit)` with trace
+  C pkeys <p>                          `Concrete::keys()`                    k,k,… / -
+  J ptranslate-id <fam> <p> <translated> <translated == p>
+  J ptranslate-compose <fam> <f> <g> <p> <t_{g∘f}(p)> <t_g(t_f(p))>       both = `mapKeys (g∘f) p`
+  J ptranslate-string <fam> <map> <p.to_string()> <translated.to_string()>
+        the second string is the first with every key / hash token replaced by its image
+        (token-wise; `map` = real: images are the real keys / hash values of the D tables)
+  J punsat <key> <p> <result>          result = p with exactly the `pk(key)` leaves replaced by U
+  J pkeys-multiset <fam> <p> <keys()> <for_each_key trace> <keys scanned from to_string()>
   J desc-check <check>:<descriptor> <pass|fail>   descriptor-level self-checks of the harness
         (identity / inverse / composite translation, re-parse and script_pubkey of the
         translated descriptor, translator-call and for_each_key key multisets and order,
@@ -35,6 +49,7 @@ Judge (answer = SPECIFICATION applied to the implementation's outputs; `ok` or `
 import MsVerif.Driver.OpsMs
 import MsVerif.Model.Cmp
 import MsVerif.Model.Translate
+import MsVerif.Driver.PolWire
 
 namespace MsVerif.Driver
 open MsVerif
@@ -137,6 +152,8 @@ def pureMapOf : String → Option PureMap
   | "id" => some ⟨id, fun _ h => h⟩
   | "ren" => some ⟨renKey, renHash⟩
   | "ren2" => some ⟨fun k => k / 100 * 100 + (k % 100 + 7) % 10, fun _ h => (h + 2) % 4⟩
+  | "collapse" => some ⟨fun k => k % 2, fun _ h => h % 2⟩     -- not injective
+  | "real" => some ⟨id, fun _ h => h⟩    -- string atoms → real keys / hashes with the same ids
   | "comp" => some ⟨fun k => k % 100, fun _ h => h⟩
   | "unc" => some ⟨fun k => k % 100 + 100, fun _ h => h⟩
   | "xonly" => some ⟨fun k => k % 100 + 200, fun _ h => h⟩
@@ -167,6 +184,19 @@ def showTr : Except (TrErr Atom) (Ms × Nat) → String
   | .error (.translatorErr (.hash kind h)) => s!"ERR:H{HashKind.name kind}:{h}"
   | .error .outerError => "ERR:outer"
   | .error .panic => "PANIC"
+
+def showPTr : Except (TrErr Atom) (PPol × Nat) → String
+  | .ok (p, _) => showPol p
+  | .error (.translatorErr (.key k)) => s!"ERR:K{k}"
+  | .error (.translatorErr (.hash kind h)) => s!"ERR:H{HashKind.name kind}:{h}"
+  | .error .outerError => "ERR:outer"
+  | .error .panic => "PANIC"
+
+/-- the image tokens of a map in a printed policy -/
+def keyTokOf (t : Tables) (map : String) (m : PureMap) (k : Nat) : String :=
+  if map == "real" then Hash.toHex (t.keyEnv.ser (m.f k)) else strKeyTok (m.f k)
+def hashTokOf (t : Tables) (map : String) (m : PureMap) (kind : HashKind) (h : Nat) : String :=
+  if map == "real" then Hash.toHex (t.keyEnv.hashVal kind (m.g kind h)) else strHashTok kind (m.g kind h)
 
 def runTranslate (env : KeyEnv) (ctx : Ctx) (map : String) (m : Ms) : Option String := do
   let t ← translatorOf map
@@ -287,6 +317,47 @@ def opsCmp (t : Tables) (kind op : String) (args : List String) : Option String 
       if it != want then "bad:iter_pk"
       else if fe != want then "bad:for_each_key"
       else if sortNat sc != sortNat want then "bad:string-keys"
+      else "ok")
+  | "C", "ptranslate", [_fam, map, p] => do
+    let p ← parsePolWire p; let tr ← translatorOf map
+    pure (showPTr ((polTranslate tr p).run 0))
+  | "C", "punsat", [key, p] => do
+    let p ← parsePolWire p; let key ← key.toNat?
+    pure (match translateUnsat key p with | .ok q => showPol q | .error _ => "PANIC")
+  | "C", "pforeach", [_fam, stop, p] => do
+    let p ← parsePolWire p; let stop ← parseOptNat stop
+    pure (showVisit (polForEachKey (fun k => some k != stop) p))
+  | "C", "pforany", [_fam, hit, p] => do
+    let p ← parsePolWire p; let hit ← parseOptNat hit
+    pure (showVisit (polForAnyKey (fun k => some k == hit) p))
+  | "C", "pkeys", [p] => do
+    let p ← parsePolWire p
+    pure (showKeys (polKeys p))
+  | "J", "ptranslate-id", [_fam, p, tr, eq] => do
+    let x ← parsePolWire p
+    pure (
+      match parsePolWire tr with
+      | none => "bad:" ++ tr
+      | some y => if x != y then "bad:structure" else if eq != "1" then "bad:not-eq" else "ok")
+  | "J", "ptranslate-compose", [_fam, f, g, p, comp, seq] => do
+    let x ← parsePolWire p; let f ← pureMapOf f; let g ← pureMapOf g
+    let want := showPol (x.mapKeys (g.f ∘ f.f) (fun kind h => g.g kind (f.g kind h)))
+    pure (if comp != want then "bad:composite" else if seq != want then "bad:sequential" else "ok")
+  | "J", "ptranslate-string", [_fam, map, s0, s1] => do
+    let m ← pureMapOf map
+    let want := substString (keyTokOf t map m) (hashTokOf t map m) s0
+    pure (if s1 == want then "ok" else "bad:want-" ++ want)
+  | "J", "punsat", [key, p, res] => do
+    let x ← parsePolWire p; let key ← key.toNat?
+    pure (if res == showPol (x.replaceKey key) then "ok" else "bad:replace")
+  | "J", "pkeys-multiset", [_fam, p, ks, fe, scanned] => do
+    let x ← parsePolWire p
+    let ks ← parseDepthsLike ks; let fe ← parseDepthsLike fe; let sc ← parseDepthsLike scanned
+    let want := x.keys
+    pure (
+      if ks != want then "bad:keys"
+      else if fe != want then "bad:for_each_key"
+      else if sc != want then "bad:string-keys"
       else "ok")
   -- verdict of a structural self-check on a descriptor that was computed by the harness
   -- (identity / inverse translation, re-parse, script_pubkey, key visits): ok iff `pass`
